@@ -2,6 +2,12 @@ package props
 
 import (
 	"encoding/json"
+
+	"github.com/Oudwins/zog/conf"
+	"github.com/Oudwins/zog/i18n"
+	"github.com/Oudwins/zog/i18n/en"
+	"github.com/Oudwins/zog/i18n/es"
+	"github.com/Oudwins/zog/zconst"
 	"sort"
 	"strings"
 	"testing"
@@ -19,6 +25,25 @@ import (
 
 type c09Case struct {
 	Variants []model.Case `json:"variants"`
+	// Lang: i18n is installed with several languages (two of them regional variants of one language, registered under
+	// their regional tags only) and every execution asks for this language
+	Lang string `json:"lang,omitempty"`
+}
+
+// c09Languages: en (default), es, and Portuguese in two regional variants whose messages are marked.
+func c09Languages() map[string]i18n.LangMap {
+	mark := func(tag string) i18n.LangMap {
+		out := i18n.LangMap{}
+		for typ, msgs := range en.Map {
+			mm := map[zconst.ZogIssueCode]string{}
+			for code, msg := range msgs {
+				mm[code] = "[" + tag + "] " + msg
+			}
+			out[typ] = mm
+		}
+		return out
+	}
+	return map[string]i18n.LangMap{"en": en.Map, "es": es.Map, "pt-BR": mark("pt-BR"), "pt-PT": mark("pt-PT"), "pt-AO": mark("pt-AO"), "pt-MZ": mark("pt-MZ")}
 }
 
 func cloneCase(c model.Case) model.Case {
@@ -102,7 +127,15 @@ func propC09(reps int) func(c09Case) hh.Verdict {
 	return func(cc c09Case) hh.Verdict {
 		var ref *c09obs
 		orders := map[string]bool{}
+		if cc.Lang != "" {
+			saved := conf.IssueFormatter
+			defer func() { conf.IssueFormatter = saved }()
+			i18n.SetLanguagesErrsMap(c09Languages(), "en")
+		}
 		for vi, c := range cc.Variants {
+			if cc.Lang != "" {
+				c.Exec.CtxVals = append(append([]model.KV(nil), c.Exec.CtxVals...), model.KV{K: i18n.LangKey, V: model.Str(cc.Lang)})
+			}
 			c.Root.Number()
 			kp := map[int]string{}
 			keyPaths(c.Root, "", kp)
@@ -211,10 +244,15 @@ func TestC09(t *testing.T) {
 				base.Exec.Formatter = model.TemplateFormatter // messages built from multi-placeholder templates and the tests' parameter maps
 			}
 			addOrderProbes(base.Root)
+			lang := ""
+			if base.Exec.Formatter == "" && rapid.IntRange(0, 3).Draw(rt, "i18n") == 0 {
+				// a language that is configured, one that is not, and tags that only have relatives among the configured ones
+				lang = rapid.SampledFrom([]string{"es", "pt", "pt-CV", "pt-BR", "fr", "PT"}).Draw(rt, "lang")
+			}
 			if rapid.IntRange(0, 2).Draw(rt, "sentinel") == 0 {
 				addSentinelTests(rt, base.Root)
 			}
-			cc := c09Case{Variants: []model.Case{base}}
+			cc := c09Case{Variants: []model.Case{base}, Lang: lang}
 			for k := 1; k < K; k++ {
 				v := cloneCase(base)
 				permuteNode(rt, v.Root)
